@@ -52,6 +52,9 @@ func renderSample(c sampleCase) string {
 		if has(c.Features, "plugin-types") {
 			sb.WriteString("  - protoc_builtin: cpp\n    out: gen/cpp\n    types:\n      - a.v1.Foo\n    exclude_types:\n      - a.v1.Bar\n")
 		}
+		if has(c.Features, "builtin-strategy") {
+			sb.WriteString("  - protoc_builtin: java\n    out: gen/java\n    strategy: all\n    include_imports: true\n")
+		}
 		sb.WriteString("inputs:\n")
 		any := false
 		if has(c.Features, "in-dir") {
@@ -104,6 +107,12 @@ func renderSample(c sampleCase) string {
 		}
 		if has(c.Features, "remote-plugin") {
 			sb.WriteString("  - plugin: buf.build/protocolbuffers/go:v1.31.0\n    out: gen/remote\n")
+		}
+		if has(c.Features, "name-strategy") {
+			sb.WriteString("  - name: java\n    out: gen/java\n    strategy: all\n")
+		}
+		if has(c.Features, "protoc-path-strategy") {
+			sb.WriteString("  - plugin: cpp\n    out: gen/cpp\n    protoc_path: /usr/local/bin/protoc\n    strategy: all\n")
 		}
 	case "work":
 		sb.WriteString("version: v1\ndirectories:\n  - b\n  - a\n")
